@@ -530,10 +530,6 @@ func main() {
 		fmt.Printf("exit=%d panic=%q\nstdout:\n%s\nstderr:\n%s\n", res.exit, res.panic, strings.ReplaceAll(string(res.stdout), "\x00", "--"), res.stderr)
 		return
 	}
-	if len(cfg.Args) > 0 && cfg.Args[0] == "timing" {
-		devTiming()
-		return
-	}
 	if len(cfg.Args) > 0 && cfg.Args[0] == "semgen" {
 		r := hlib.NewRand(cfg.Seed)
 		for i := 0; i < 40; i++ {
